@@ -46,6 +46,21 @@ func (c *Ctx) Fn(anchor string) *ssa.Function {
 		fn = c.W.Method(parts[0], parts[1], parts[2])
 	}
 	if fn == nil || len(fn.Blocks) == 0 {
+		// a function turned into a method (or the reverse) keeps its name: accept the unique
+		// function or method of that name in the package (receiver and first parameter are
+		// both $0, so rules written against one read the other unchanged)
+		name := parts[len(parts)-1]
+		var cands []*ssa.Function
+		for _, f := range c.W.FuncsOf(parts[0]) {
+			if f.Name() == name && f.Parent() == nil && len(f.Blocks) > 0 && !isTestFunc(c.W, f) {
+				cands = append(cands, f)
+			}
+		}
+		if len(cands) == 1 {
+			return cands[0]
+		}
+	}
+	if fn == nil || len(fn.Blocks) == 0 {
 		c.Unk("anchor:"+anchor, "-", "anchored function "+anchor+" not found (renamed or removed); the rule cannot be evaluated")
 		return nil
 	}
